@@ -95,6 +95,7 @@ UniGoals ==   {UnifyG(u, s) : u \in Uni, s \in {V("$X"), a}} \cup {UnifyG(s, u) 
 SimpleS == {Call(Cx("p", <<V("$X")>>)), Call(Cx("q", <<a, V("$Y")>>)), UnifyG(V("$X"), a), Bip("less_than", <<V("$X"), IntT(7)>>),
             CutG, FailG, NlG, Bip("print", <<V("$X")>>), Call(Cx("go", <<>>)), NotG(Call(Cx("p", <<V("$X")>>)))}
 Simple == Calls \cup Bips \cup UniGoals \cup {NotG(g) : g \in {Call(Cx("p", <<V("$X")>>)), UnifyG(V("$X"), a), Bip("equal", <<V("$X"), a>>), Call(Cx("go", <<>>))}}
+          \cup {TimeG(g) : g \in {Call(Cx("p", <<V("$X")>>)), Call(Cx("go", <<>>)), Call(Cx("q", <<a, V("$Y")>>))}}
 Conjs  == {AndG(<<g1, g2>>) : g1 \in SimpleS, g2 \in SimpleS} \cup {AndG(<<g1, g2, g3>>) : g1 \in SimpleS, g2 \in {CutG, UnifyG(V("$X"), a)}, g3 \in SimpleS}
 ConjsS == {AndG(<<g1, g2>>) : g1 \in {Call(Cx("p", <<V("$X")>>)), CutG}, g2 \in {Call(Cx("q", <<a, V("$Y")>>)), FailG}}
 Disjs  ==   {OrG(<<g1, g2>>) : g1 \in SimpleS, g2 \in SimpleS}
